@@ -364,6 +364,8 @@ def run(ctx, tier):
     # reads reflect EXACTLY the transaction's own changes: a refused mutation must not leave a partial one behind
     import c06
     results += c06.error_atomic(ctx, rule='C07.error-atomic')
+    results += c01.create_refuses_existing(ctx, rule='C07.create-refuses-existing')
+    results += c01.counter(ctx, rule='C07.counter')
     return dict(
         results=results, stats=dict(ctx.stats),
         explanation=(
